@@ -146,6 +146,18 @@ CLAIMED = {
              "before its coroutine first runs executes no clean-up at all (outside the quantifier: no await point reached).",
         technique="Coq proof over all admissible event prefixes + cancellation injected at every loop iteration of the real coroutines",
         ref="7/C24"),
+    "C01": dict(
+        text="Theorem C01_exact (structural induction over ALL expression trees, all operand values, via the invariant C01_invariant: at every node the register "
+             "value is congruent to the exact value modulo the width it is computed at): the n-byte destination receives the exact value reduced to n bytes, "
+             "under the property's range precondition. The theorem is about Gen/Denote.v `impl`, the width/sign propagation of the generator; it excludes "
+             "exactly the three recorded defects, for which C01_refuted_* give machine-checked witnesses. Ties: (1) the REAL generator's bytecode for random "
+             "statements is executed in the Coq ISA model and must equal `impl` (all cases, also outside the precondition) and the exact meaning (inside it); "
+             "(2) the ISA model is compared with the running kernel (BPF_PROG_TEST_RUN) on random programs each run.",
+        note=TB + "Partial: register allocation / instruction emission are not modelled (tie by execution of the emitted code, sampled); coq/Ebpf/Isa.v is "
+             "trusted and cross-checked against the kernel when bpf() is permitted (skipped otherwise). Known findings: signed // and %, w/sw registers with "
+             "non-extended upper half, abs of unsigned values with bit 63.",
+        technique="Coq proof by structural induction over expression trees + execution of real generated bytecode in a kernel-validated ISA model",
+        ref="7/C01"),
 }
 
 REASONS_NOT_YET = "no check built yet in this round (planned, see DESIGN.md section 7); nothing is claimed for it"
